@@ -318,7 +318,7 @@ def grouped_findings(r, src):
                                     % (r["outcome"], g["outcome"]), "rust_source": g.get("macro_src") or src, "observed": g.get("message")})
         elif not g.get("same_tokens", True):
             broken.append("a definition expands to different tokens when its field types come from macro fragments (mode %s)" % g["mode"])
-        if g.get("model") is not None and r.get("model_plain") is not None and g["mode"] != 3 and g["model"] != r["model_plain"]:
+        if g.get("model") is not None and r.get("model_plain") is not None and g["mode"] < 3 and g["model"] != r["model_plain"]:
             broken.append("the model reads a definition differently when its field types come from macro fragments (mode %s): %s vs %s"
                           % (g["mode"], str(g["model"])[:150], str(r["model_plain"])[:150]))
     return failing, broken
